@@ -302,35 +302,39 @@ def duplicates_rule(ctx):
     r = ctx.rule("R4.3", "duplicate Dirichlet entries: every consumer of the raw Dirichlet dof list sums duplicates (COO constructor) or is idempotent (mask); the Lagrange path must not add one multiplier row per raw entry", min_instances=3)
     simu = repo.cls(SIMU)
     # (a) COO constructor in __Solver_Get_Dirichlet_A_x (r1/r2) and Bc_vector_Dirichlet
+    from ..flow import Locals
+
     for mname in ("__Solver_Get_Dirichlet_A_x", "Bc_vector_Dirichlet"):
         f = simu.methods[mname]
+        L = Locals(f.node)
         r.instance(fn=f.qualname)
         ok = False
         for n in ast.walk(f.node):
-            if isinstance(n, ast.Call) and (dotted(n.func) or "").endswith("csr_matrix") and n.args and isinstance(n.args[0], ast.Tuple) and len(n.args[0].elts) == 2:
-                vals, idx = n.args[0].elts
-                if isinstance(idx, ast.Tuple) and norm_text(vals) == "dofsValues" and norm_text(idx.elts[0]) == "dofs":
-                    ok = True
+            if isinstance(n, ast.Call) and (dotted(n.func) or "").endswith("csr_matrix") and n.args:
+                a0 = L.resolve(n.args[0])
+                if isinstance(a0, ast.Tuple) and len(a0.elts) == 2 and isinstance(L.resolve(a0.elts[1]), ast.Tuple):
+                    vals, idx = a0.elts[0], L.resolve(a0.elts[1])
+                    vt, rt = L.text(vals), L.text(idx.elts[0])
+                    vals_ok = "Bc_values_Dirichlet(" in vt or (isinstance(vals, ast.Name) and vals.id in L.params)
+                    if vals_ok and "Bc_dofs_Dirichlet(" in rt:
+                        ok = True
         if ok:
-            r.ok(f"{mname}: csr_matrix((dofsValues, (dofs, 0)), ...) sums repeated dofs")
+            r.ok(f"{mname}: csr_matrix((Dirichlet values, (Dirichlet dofs, 0)), ...) sums repeated dofs")
         else:
-            r.fail(f.qualname, "coo", f.file, f.lineno, mname, "the Dirichlet vector is no longer built by the duplicate-summing COO constructor from (dofsValues, dofs)")
+            r.fail(f.qualname, "coo", f.file, f.lineno, mname, "the Dirichlet vector is no longer built by the duplicate-summing COO constructor from (values, Bc_dofs_Dirichlet)")
     # (b) Lagrange path
     mod = repo.module(SOLV)
     f = mod.functions["__Solver_2"]
     r.instance(fn=f.qualname)
-    raw = None
-    for n in ast.walk(f.node):
-        if isinstance(n, ast.Assign) and isinstance(n.value, ast.Call) and (dotted(n.value.func) or "").endswith("Bc_dofs_Dirichlet") and isinstance(n.targets[0], ast.Name):
-            raw = n.targets[0].id
+    L2 = Locals(f.node)
+    raw_names = {nm for nm, v in L2.defs.items() if isinstance(v, ast.Call) and (dotted(v.func) or "").endswith("Bc_dofs_Dirichlet")}
     per_entry = False
-    if raw:
-        txt = norm_text(f.node)
-        # one row per raw entry: a count len(raw) feeds an arange of multiplier rows that index A together with raw
-        lens = [n for n in ast.walk(f.node) if isinstance(n, ast.Assign) and isinstance(n.value, ast.Call) and dotted(n.value.func) == "len" and n.value.args and norm_text(n.value.args[0]) == raw]
-        stores = [n for n in ast.walk(f.node) if isinstance(n, ast.Assign) and isinstance(n.targets[0], ast.Subscript) and raw in [x.id for x in ast.walk(n.targets[0].slice) if isinstance(x, ast.Name)]]
-        dedup = any(isinstance(n, ast.Call) and (dotted(n.func) or "") in ("np.unique",) and n.args and norm_text(n.args[0]) == raw for n in ast.walk(f.node))
-        per_entry = bool(lens) and bool(stores) and not dedup
+    if raw_names:
+        # a count len(raw) sizing the multiplier rows, raw used as an index of the system matrix, and no de-duplication
+        uses_len = any(isinstance(n, ast.Call) and dotted(n.func) == "len" and n.args and isinstance(n.args[0], ast.Name) and n.args[0].id in raw_names for n in ast.walk(f.node))
+        stores = [n for n in ast.walk(f.node) if isinstance(n, ast.Assign) and isinstance(n.targets[0], ast.Subscript) and raw_names & {x.id for x in ast.walk(n.targets[0].slice) if isinstance(x, ast.Name)}]
+        dedup = any(isinstance(n, ast.Call) and (dotted(n.func) or "") in ("np.unique",) and n.args and isinstance(n.args[0], ast.Name) and n.args[0].id in raw_names for n in ast.walk(f.node))
+        per_entry = uses_len and bool(stores) and not dedup
     if per_entry:
         r.fail(f.qualname, "multiplier-row-per-entry", f.file, f.lineno, "__Solver_2",
                f"the Lagrange path adds one multiplier row per *entry* of Bc_dofs_Dirichlet (duplicates included) and assigns b[row] = value*alpha: a dof constrained twice yields two identical rows (singular bordered matrix) instead of the sum convention of the elimination solver")
@@ -368,7 +372,7 @@ def dispatch_rule(ctx):
     members = repo.enum_members(SOLV + ".SolverType")
     handled = set()
     for n in ast.walk(f.node):
-        if isinstance(n, ast.Compare) and isinstance(n.left, ast.Name) and n.left.id == "solver" and isinstance(n.ops[0], ast.Eq):
+        if isinstance(n, ast.Compare) and isinstance(n.left, ast.Name) and isinstance(n.ops[0], ast.Eq):
             c = n.comparators[0]
             d = dotted(c) or ""
             if d.startswith("SolverType."):
@@ -406,16 +410,23 @@ def incremental_rule(ctx):
     r = ctx.rule("R4.6", "Newton-incremental Dirichlet values: when isNonLinear the prescribed values are reduced by the current solution before elimination", min_instances=1)
     f = repo.cls(SIMU).methods["_Solver_Apply_Dirichlet"]
     r.instance(fn=f.qualname)
-    ok = False
+    from ..flow import Locals as _L
+
+    L = _L(f.node)
     idx_sub = idx_call = None
+    callarg = None
     for i, st in enumerate(f.node.body):
-        t = norm_text(st)
+        for c in ast.walk(st):
+            if isinstance(c, ast.Call) and (dotted(c.func) or "").endswith("__Solver_Get_Dirichlet_A_x") and idx_call is None:
+                idx_call = i
+                callarg = c.args[-1] if c.args else None
+    for i, st in enumerate(f.node.body):
         if isinstance(st, ast.If) and "isNonLinear" in norm_text(st.test):
-            for s in st.body:
-                if isinstance(s, ast.AugAssign) and isinstance(s.op, ast.Sub) and "_Solver_Get_Newton_Raphson_current_solution()[dofs]" in norm_text(s.value):
-                    idx_sub = i
-        if "__Solver_Get_Dirichlet_A_x" in t and idx_call is None:
-            idx_call = i
+            for s_ in st.body:
+                if isinstance(s_, ast.AugAssign) and isinstance(s_.op, ast.Sub) and isinstance(s_.target, ast.Name) and isinstance(callarg, ast.Name) and s_.target.id == callarg.id:
+                    vt = L.text(s_.value)
+                    if "_Solver_Get_Newton_Raphson_current_solution()[" in vt and "Bc_dofs_Dirichlet(" in vt:
+                        idx_sub = i
     if idx_sub is not None and idx_call is not None and idx_sub < idx_call:
         r.ok("dofsValues -= current[dofs] precedes the elimination on the non-linear path")
     else:
